@@ -101,6 +101,14 @@ Proof.
     split; [intros; right; split; auto|intros [E|[? ?]]; [congruence|assumption]].
 Qed.
 
+Lemma NoDup_app_remove_l (A B : list Z) : NoDup (A ++ B) -> NoDup B.
+Proof. induction A as [|x A IH]; simpl; intros H; [exact H|]. inversion H; subst. auto. Qed.
+Lemma NoDup_app_remove_r (A B : list Z) : NoDup (A ++ B) -> NoDup A.
+Proof.
+  induction A as [|x A IH]; simpl; intros H; [constructor|]. inversion H as [|? ? Nx ND]; subst.
+  constructor; [intro; apply Nx; apply in_or_app; left; assumption|auto].
+Qed.
+
 Lemma NoDup_parts (l1 s1 l2 s2 : list Z) : NoDup (l1 ++ s1 ++ l2 ++ s2) -> NoDup l1 /\ NoDup s1 /\ NoDup l2 /\ NoDup s2.
 Proof.
   intros ND. split; [apply NoDup_app_remove_r in ND; exact ND|]. apply NoDup_app_remove_l in ND.
@@ -121,16 +129,16 @@ Proof.
       * apply memb_In in M. cbn [fst snd live spare acount length]. split; [|split; [assumption|rewrite Nat2Z.inj_succ; lia]].
         eapply Permutation_NoDup; [|exact ND].
         apply Permutation_app_head. apply Permutation_app_head.
-        rewrite (perm_take b s2 N4 M) at 1. cbn [app]. apply Permutation_middle.
+        rewrite (perm_take b s2 N4 M) at 1. cbn [app]. symmetry. apply Permutation_middle.
       * destruct (memb b (l1 ++ s1 ++ l2 ++ s2)) eqn:M2; cbn [fst snd live spare acount length]; [split; [|split]; assumption|].
         assert (~ In b (l1 ++ s1 ++ l2 ++ s2)) as NI by (rewrite <- memb_In; congruence).
         split; [|split; [assumption|rewrite Nat2Z.inj_succ; lia]].
         eapply Permutation_NoDup with (l := b :: l1 ++ s1 ++ l2 ++ s2); [|constructor; assumption].
-        rewrite !app_assoc. rewrite <- Permutation_middle. rewrite <- !app_assoc. reflexivity.
+        cbn [app]. rewrite (app_assoc l1 s1 (l2 ++ s2)), (app_assoc l1 s1 (b :: l2 ++ s2)). apply Permutation_middle.
     + destruct (memb b s1) eqn:M.
       * apply memb_In in M. cbn [fst snd live spare acount length]. split; [|split; [rewrite Nat2Z.inj_succ; lia|assumption]].
         eapply Permutation_NoDup; [|exact ND].
-        rewrite (perm_take b s1 N2 M) at 1. cbn [app]. rewrite <- Permutation_middle. reflexivity.
+        rewrite (perm_take b s1 N2 M) at 1. cbn [app]. symmetry. apply Permutation_middle.
       * destruct (memb b (l1 ++ s1 ++ l2 ++ s2)) eqn:M2; cbn [fst snd live spare acount length]; [split; [|split]; assumption|].
         assert (~ In b (l1 ++ s1 ++ l2 ++ s2)) as NI by (rewrite <- memb_In; congruence).
         split; [|split; [rewrite Nat2Z.inj_succ; lia|assumption]].
@@ -152,18 +160,19 @@ Proof.
       apply Permutation_app_head. apply Permutation_app_head. rewrite app_assoc. apply Permutation_app_tail. apply filter_partition_perm.
     + split; [|split; [rewrite filter_partition_length; lia|assumption]].
       eapply Permutation_NoDup; [|exact ND].
-      rewrite app_assoc. rewrite (app_assoc l1). apply Permutation_app_tail. apply filter_partition_perm.
+      rewrite <- (app_assoc (filter f l1) s1). rewrite (app_assoc (filter (fun b => negb (f b)) l1) (filter f l1)).
+      apply Permutation_app_tail. apply filter_partition_perm.
   - (* DeallocAll *)
-    destruct p; unfold get, put, blocks; cbn [fst snd live spare acount app length]; (split; [assumption|split; [try assumption; reflexivity|try assumption; reflexivity]]).
+    destruct p; unfold get, put, blocks; cbn [fst snd live spare acount app length]; rewrite <- ?app_assoc;
+    (split; [assumption|split; [try assumption; reflexivity|try assumption; reflexivity]]).
   - (* Merge *)
+    assert (Permutation (l1 ++ s1 ++ l2 ++ s2) ((l1 ++ l2) ++ s1 ++ s2)) as P.
+    { rewrite <- app_assoc. apply Permutation_app_head. rewrite !app_assoc. apply Permutation_app_tail. apply Permutation_app_comm. }
     destruct d; unfold get, put, blocks; cbn [fst snd live spare acount negb app length]; rewrite ?app_nil_r.
     + split; [|split; [reflexivity|rewrite app_length, Nat2Z.inj_add; lia]].
-      eapply Permutation_NoDup; [|exact ND].
-      transitivity ((l2 ++ s2) ++ (l1 ++ s1)); [rewrite <- app_assoc; rewrite (app_assoc l1 s1); apply Permutation_app_comm|].
-      rewrite <- !app_assoc. apply Permutation_app_head. rewrite !app_assoc. apply Permutation_app_tail. apply Permutation_app_comm.
+      eapply Permutation_NoDup; [|exact ND]. rewrite P. apply Permutation_app; apply Permutation_app_comm.
     + split; [|split; [rewrite app_length, Nat2Z.inj_add; lia|reflexivity]].
-      eapply Permutation_NoDup; [|exact ND].
-      rewrite <- !app_assoc. apply Permutation_app_head. rewrite !app_assoc. apply Permutation_app_tail. apply Permutation_app_comm.
+      eapply Permutation_NoDup; [|exact ND]. exact P.
 Qed.
 
 Lemma inv_empty : inv empty.
